@@ -89,7 +89,7 @@ LOOP_GROUPS = {"C01": (["delta"], "C01.source_scan_sync_is_model / source_scan_a
                "C05": (["delta"], "C05.source_patch_sync_is_model / source_patch_async_is_model / source_validate_is_model"),
                "C16": (["delta"], "C16.source_scan_is_model"),
                "C18": (["reconcile"], "C18.source_reconcile_is_model"),
-               "C19": (["plan"], "C19.source_build_plan_is_model / source_is_excluded_is_model / source_glob_match_is_model"),
+               "C19": (["plan", "scan"], "C19.source_build_plan_is_model / source_is_excluded_is_model / source_glob_match_is_model / source_listing_parser_is_model"),
                "C15": (["plan", "reconcile", "bidir"], "C15.source_is_excluded_is_model / source_glob_match_is_model / source_bisync_dry_run_is_model"),
                "C04": (["plan", "scan"], "C04.source_build_plan_is_model / source_meta_scan_fails_on_a_stat_error / source_meta_scan_is_exact"),
                "C02": (["reconcile", "bidir", "crash", "scan"], "C02.source_apply_is_model / source_run_is_model, C18.source_reconcile_is_model"),
